@@ -379,7 +379,7 @@ def build(s):
     fmt = s.fmt
     signed_ad = k.get("signed_ad", ad)       # statement produced over other authenticator data
     signed_cdh = k.get("signed_cdh", cdh)
-    att_cred = Cred(s.att_kind, slot=7)      # attestation key (x5c formats)
+    att_cred = k.get("att_cred_override") or Cred(s.att_kind, slot=7)      # attestation key (x5c formats)
     att_alg = k.get("att_alg", att_cred.alg)
     att_scheme = k.get("att_scheme", att_cred.scheme)
     leaf_nb, leaf_na = k.get("leaf_nb", T0 - DAY), k.get("leaf_na", T0 + 365 * DAY)
